@@ -130,6 +130,9 @@ class Sim:
         self.escapes: list = []
         self.touched: set = set()
         self.tmpdir = None
+        self.timers: list = []   # (due virtual time, seq, SimTimer)
+        self.timer_seq = 0
+        self.firing = False
 
     # ---------------------------------------------------------------- paths
     def rel(self, path):
@@ -161,10 +164,40 @@ class Sim:
         self.seq += 1
         # virtual cost of a seam event: drawn from the run's PRNG (never a real clock)
         self.vtime += self.rng.choice((1, 2, 3, 5, 8)) * 1e-4
+        if self.rng.random() < 0.1:
+            self.vtime += self.rng.uniform(0.05, 2.5)  # now and then a slow disk / a slow peer: simulated latency
         ev = {"n": self.seq, "t": round(self.vtime, 6), "op": self.op_index, "seam": seam}
         ev.update(kw)
         self.events.append(ev)
+        if self.timers and not self.inside:
+            self.advance(0.0)
         return ev
+
+    def advance(self, dt: float = 0.0):
+        """Move the virtual clock and run the timers that became due (in this thread, in due order)."""
+        self.vtime += max(0.0, float(dt))
+        if self.firing:
+            return
+        self.firing = True
+        try:
+            while True:
+                due = sorted((t for t in self.timers if t[0] <= self.vtime), key=lambda t: (t[0], t[1]))
+                if not due:
+                    break
+                t = due[0]
+                self.timers.remove(t)
+                timer = t[2]
+                if timer._cancelled:
+                    continue
+                timer._fired = True
+                self.events.append({"n": self.seq + 1, "t": round(self.vtime, 6), "op": self.op_index, "seam": "timer", "due": round(t[0], 6)})
+                self.seq += 1
+                try:
+                    timer.function(*timer.args, **timer.kwargs)
+                except BaseException:  # noqa: BLE001 - a timer thread's exception never reaches the caller
+                    pass
+        finally:
+            self.firing = False
 
     def find_fault(self, seam: str, rel=None):
         """The armed fault (index, dict) that applies to this call of `seam`, if any."""
@@ -275,11 +308,64 @@ def _exists_common(sim, path, real):
     return res
 
 
+class SimTimer:
+    """threading.Timer on the virtual clock: fires (synchronously) when the simulated time reaches its deadline."""
+
+    def __init__(self, interval, function, args=None, kwargs=None):
+        self.interval = float(interval)
+        self.function = function
+        self.args = args if args is not None else []
+        self.kwargs = kwargs if kwargs is not None else {}
+        self.daemon = True
+        self.name = "SimTimer"
+        self._cancelled = False
+        self._fired = False
+        self._started = False
+
+    def start(self):
+        s = SIM
+        self._started = True
+        s.timer_seq += 1
+        s.timers.append((s.vtime + self.interval, s.timer_seq, self))
+        s.event("timer_start", interval=self.interval)
+
+    def cancel(self):
+        self._cancelled = True
+
+    def is_alive(self):
+        return self._started and not self._fired and not self._cancelled
+
+    def join(self, timeout=None):
+        return None
+
+    def setDaemon(self, v):  # noqa: N802
+        self.daemon = v
+
+
+_EPOCH = 1767322000.0
+
+
 def install_seams(sim: Sim):
     """Attach the shims. Only ever called in a forked child."""
     global SIM
     SIM = sim
     import pathlib
+    import threading
+    import time as _time
+
+    # the clock: every reader of time in the simulated process sees the virtual clock
+    threading.Timer = SimTimer
+    _time.time = lambda: _EPOCH + SIM.vtime
+    _time.monotonic = lambda: SIM.vtime
+    _time.perf_counter = lambda: SIM.vtime
+    _time.time_ns = lambda: int((_EPOCH + SIM.vtime) * 1e9)
+    _time.monotonic_ns = lambda: int(SIM.vtime * 1e9)
+
+    def _sleep(seconds):
+        SIM.event("sleep", seconds=float(seconds))
+        SIM.advance(float(seconds))
+
+    _time.sleep = _sleep
 
     builtins.open = sim_open
     io.open = sim_open
@@ -682,16 +768,16 @@ def _exec_match(op):
             value = "regex:" + str(MasterOfPuppets(match_config=cfg).regex_rule)
         elif op.get("rematch") and fresh and _HELD_MOP is not None and _HELD_KEY == okey:
             # the caller asks the object it still holds to match once more (nothing happened in between)
-            value = _HELD_MOP.perform_matching()
             _HELD_FRESH = True
+            value = _HELD_MOP.perform_matching()
         elif op.get("hold_object"):
             # the loop idiom `mop = MasterOfPuppets(cfg); result = mop.perform_matching()`: the previous
             # object is released by the re-binding, i.e. AFTER the new one was constructed
             mop = MasterOfPuppets(match_config=cfg)
             _HELD_MOP, _HELD_KEY = mop, okey
             del mop
+            _HELD_FRESH = True  # also when the match below fails: the caller may simply try again
             value = _HELD_MOP.perform_matching()
-            _HELD_FRESH = True
         else:
             value = MasterOfPuppets(match_config=cfg).perform_matching()
     except BaseException as e:  # noqa: BLE001 - every way of not returning is an outcome
@@ -769,6 +855,33 @@ def _exec_write(sim, op):
     return ["ok"]
 
 
+def _feed_stdin(sim, op):
+    """op["stdin_pipe"] = world file whose bytes arrive on a PIPE at fd 0 (for inputs such as /dev/stdin)."""
+    rel = op.get("stdin_pipe")
+    if not rel:
+        return None
+    with sim.harness():
+        try:
+            with _REAL_OPEN(os.path.join(sim.root, rel), "rb") as fh:
+                data = fh.read()[:60000]  # must fit the pipe buffer: nobody is there to keep writing
+        except OSError:
+            data = b""
+        r, w = os.pipe()
+        os.write(w, data)
+        os.close(w)
+        saved = os.dup(0)
+        os.dup2(r, 0)
+        os.close(r)
+    return saved
+
+
+def _restore_stdin(saved):
+    if saved is None:
+        return
+    os.dup2(saved, 0)
+    os.close(saved)
+
+
 def child_main(root: str, ops: list, seed: int, opts: dict | None = None) -> dict:
     opts = opts or {}
     sim = Sim(root, seed)
@@ -798,10 +911,13 @@ def child_main(root: str, ops: list, seed: int, opts: dict | None = None) -> dic
         if opts.get("signatures"):
             sigs.append(_singleton_signature())
         kind = op["op"]
+        if op.get("gap"):
+            sim.advance(float(op["gap"]))  # simulated time that passes before this operation starts
         sim.event("op_begin", kind=kind, faults=[f.get("label", f["kind"]) for f in sim.faults])
         if kind == "write":
             oc = _exec_write(sim, op)
         else:
+            saved_stdin = _feed_stdin(sim, op)
             with sim.harness():
                 undo = _apply_real_faults(sim, sim.faults)
             sim.in_op = True
@@ -816,6 +932,7 @@ def child_main(root: str, ops: list, seed: int, opts: dict | None = None) -> dic
                     oc = _exec_match(op) if kind == "match" else _exec_cli(op)
             finally:
                 sim.in_op = False
+                _restore_stdin(saved_stdin)
                 with sim.harness():
                     _undo_real_faults(sim, undo)
             # a real-fs fault holds for the whole operation whatever API the code uses (or does not
